@@ -83,7 +83,7 @@ def render_lib(lib):
 
 
 def render_main(P):
-    lines = ['Binde "Duden/Ausgabe" ein.', 'Binde "c04lib" ein.', ""] + TYPEDECLS
+    lines = ['Binde "Duden/Ausgabe" ein.', 'Binde "c04lib" ein.', ""] + TYPEDECLS + semgen.TYPEDECLS_SEM
     for sd in P["structs"]:
         lines += render_struct(sd, False)
     n = P["nearly"]
